@@ -28,7 +28,7 @@ type oracleInput struct {
 	Seed   int64 `json:"seed"`
 	Edits  int   `json:"edits"`
 	Boards bool  `json:"boards,omitempty"`
-	Gen    int   `json:"gen,omitempty"` // 0/1: one block per object, everything tagged; 2: oracleProgram2
+	Gen    int   `json:"gen,omitempty"`    // 0/1: one block per object, everything tagged; 2: oracleProgram2
 	Script int   `json:"script,omitempty"` // 1-based index into oracleScripts: a written program and edit list
 }
 
